@@ -5,6 +5,7 @@ use crate::model::{b, from_le, hexs, to_le, B};
 use crate::mon::{guarded, hx, par, rng_for, Rec};
 use crate::sh::*;
 use crate::zoo::{bytes_zoo, field_random, field_zoo, rand_below, rand_bytes, rand_range};
+use rand_core::RngCore;
 use serde_json::json;
 
 const P: &str = "C11";
@@ -146,6 +147,25 @@ fn run_field<F: FL>(ctx: &Ctx, rec: &mut Rec) {
                     let rinv = f.inv(&((b(1) << (64 * n64)) % &f.p)).unwrap();
                     let i = rand_range(&mut rng, (f.bits + 31) / 32);
                     f.add(&a, &f.mul(&(b(1) << (32 * i)), &rinv))
+                }
+                // differences that vanish under a *fold* of the limbs (XOR or sum over 64-bit limbs, XOR of the
+                // two 32-bit halves of a limb), applied to the internal (Montgomery) or the canonical form:
+                // comparisons that accumulate limb differences with the wrong operator cannot see them
+                4 | 5 => {
+                    let n64 = (f.bits + 63) / 64;
+                    let r_ = (b(1) << (64 * n64)) % &f.p;
+                    let montgomery = rep % 4 < 2;
+                    let base = if montgomery { f.mul(&a, &r_) } else { a.clone() };
+                    let d = b(rng.next_u64() >> (rand_range(&mut rng, 60) as u32)) + b(1);
+                    let (i, j) = (rand_range(&mut rng, n64 - 1), n64 - 2 - rand_range(&mut rng, n64 - 1).min(n64 - 2));
+                    let (i, j) = if i == j { (0, n64 - 2) } else { (i, j) };
+                    let cand = match rep % 3 {
+                        0 => &base ^ ((&d << (64 * i)) + (&d << (64 * j))),                      // XOR fold of limbs
+                        1 => { let up = &base + (&d << (64 * i)); if up >= (&d << (64 * j)) && i != j { up - (&d << (64 * j)) } else { up } } // sum fold
+                        _ => &base ^ ((&d & b(0xffff_ffff)) * b(0x1_0000_0001) << (64 * i)),     // halves of one limb
+                    };
+                    let cand = cand % &f.p;
+                    if montgomery { f.mul(&cand, &f.inv(&r_).unwrap()) } else { cand }
                 }
                 1 => f.add(&a, &b(1)),
                 2 => {
